@@ -5,6 +5,7 @@ Layout: Spec/Info/Aac.lean (ADTS header), parser: Model/Info/Aac.lean, frequency
 The ADIF header has no specification side yet (model and totality only).
 -/
 import MutagenModel.Proofs.Info.Aac
+import MutagenModel.Proofs.Info.AacLong
 set_option linter.unusedVariables false
 namespace Mutagen.C05
 open Mutagen Mutagen.Info Mutagen.Info.Aac Mutagen.Spec.Aac
@@ -38,6 +39,15 @@ the first 100 frames only.) -/
 theorem aac_adts_info_decodes_partial (h : Adts) (ok : h.OK) (hcc : h.chanConfig ≠ 0) (h100 : h.frames.length ≤ 100) :
     parse (build h) = .ok { expected h with length := lengthEstimate h } :=
   parse_adts h ok h100
+
+/-- C05 for AAC ADTS streams of MORE than 100 frames (same header and frame ranges as above): mutagen stops after 100
+frames.  Rate and channel count are the encoded ones; the bit rate is that of the raw data blocks of the first 100
+frames, and `length` is the guess `samples₁₀₀ · (N - 1) / (bytes₁₀₀ · rate)` — the 100 frames' samples scaled from
+their bytes to the file size N (`Spec.Aac.expectedFirst100`); for a constant-bit-rate stream that is the duration
+`samples / rate` up to the factor (N - 1) / N.  Channel configuration 0 excluded as above. -/
+theorem aac_adts_info_decodes_long_partial (h : Adts) (ok : h.OK) (hcc : h.chanConfig ≠ 0) (hlong : 100 < h.frames.length) :
+    parse (build h) = .ok (expectedFirst100 h) :=
+  parse_adts_long h ok hlong
 
 /-- a stream of four 44100 Hz stereo frames (MPEG-4 LC, no CRC) of 16, 17, 18, 19 bytes -/
 def adtsSample : Adts :=
